@@ -5,6 +5,7 @@ import (
 	"regexp"
 	"strconv"
 	"strings"
+	"unicode"
 	"unicode/utf8"
 
 	formula "github.com/aundis/formula"
@@ -94,14 +95,23 @@ func clampInt(i, lo, hi int) int {
 	}
 	return i
 }
+// nTrim strips Unicode White_Space (Go's unicode.IsSpace, the standard definition) from both ends,
+// rune by rune; invalid bytes are not white space.
 func nTrim(s string) string {
-	isSp := func(c byte) bool { return c == ' ' || c == '\t' || c == '\n' || c == '\r' || c == '\v' || c == '\f' }
 	a, b := 0, len(s)
-	for a < b && isSp(s[a]) {
-		a++
+	for a < b {
+		r, sz := utf8.DecodeRuneInString(s[a:b])
+		if r == utf8.RuneError && sz <= 1 || !unicode.IsSpace(r) {
+			break
+		}
+		a += sz
 	}
-	for b > a && isSp(s[b-1]) {
-		b--
+	for b > a {
+		r, sz := utf8.DecodeLastRuneInString(s[a:b])
+		if r == utf8.RuneError && sz <= 1 || !unicode.IsSpace(r) {
+			break
+		}
+		b -= sz
 	}
 	return s[a:b]
 }
@@ -450,7 +460,7 @@ func runC17(w *eng.W) {
 			}
 		}
 		emit(StrFnCase{Fn: "unary", S: Bytes(s)})
-		for _, wsp := range []string{" ", "\t", "\n", "\r\n", " \t "} {
+		for _, wsp := range []string{" ", "\t", "\n", "\r\n", " \t ", "\u200b", "\ufeff", "\u00a0", "\u3000", "\u0085", "\u2028", " \u200b ", "\u1680", "\u180e", "\x1c"} {
 			emit(StrFnCase{Fn: "unary", S: Bytes(wsp + s + wsp)})
 			emit(StrFnCase{Fn: "unary", S: Bytes(wsp + s)})
 			emit(StrFnCase{Fn: "unary", S: Bytes(s + "é" + wsp)})
